@@ -364,7 +364,7 @@ def find_impl(sf, header_pat):
                 continue
             i = sf.pairs[i] + 1
             continue
-        if is_id(t, 'impl') and (sf.parent[i] is None or True):
+        if is_id(t, 'impl') or (is_id(t, 'trait') and T[i + 1].kind == 'ident'):
             b = find_block_open(sf, i, len(T))
             header = compact(T[i:b])
             if re.search(header_pat, header):
@@ -649,6 +649,8 @@ def parse_vc(path):
                     fn['ret'] = s2[5:].strip()
                 elif s2.startswith('#wrap '):
                     fn['wrap'] = s2[6:].strip()
+                elif s2 == '#wrap-begin':
+                    fn['wrap'] = block('#end')
                 elif s2.startswith('#attr '):
                     fn['attrs'] += s2[6:].strip() + '\n'
                 elif s2 == '#spec':
@@ -983,7 +985,10 @@ def build_unit(vc_path, repo):
             wrap = sec['wrap'] if sec['wrap'] is not None else f['impl_header']
             body = f'// extracted: {f["file"]}:{f["line"]}-{f["end_line"]}\n' + sec['attrs'] + f['text'] + '\n'
             if wrap and wrap != '-':
-                body = f'{wrap} {{\n{body}}}\n'
+                if '{' in wrap:   # wrap text opens the block itself (may declare sibling items)
+                    body = f'{wrap}\n{body}}}\n'
+                else:
+                    body = f'{wrap} {{\n{body}}}\n'
             n_lines = body.count('\n')
             res.line_map.append((cur_line, cur_line + n_lines, sec['id'] or sec['name']))
             res.functions.append({'id': sec['id'] or sec['name'], 'file': f['file'],
